@@ -1489,7 +1489,21 @@ fn macro_sites(r: &mut Report) {
     site_tpl(r, "tpl-key-renamed", &emit::tpl!("x {user} y", #[emit::key("user.name")] user), &[t("x "), h("user.name"), t(" y")], &[e("user", s("no")), e("user.name", s("yes"))], "x yes y");
     site_tpl(r, "tpl-key-renamed-exotic", &emit::tpl!("{a}{b}", #[emit::key("é 日")] a, #[emit::key("")] b), &[h("é 日"), h("")], &[e("", Val::I(2)), e("é 日", Val::I(1))], "12");
 
+    // escape sequences in the literal: the expected parts are ordinary Rust strings, so rustc evaluates them
+    site_tpl(r, "tpl-escape-newline-tab", &emit::tpl!("a\nb {a}\t"), &[t("a\nb "), h("a"), t("\t")], &[e("a", Val::I(1))], "a\nb 1\t");
+    site_tpl(r, "tpl-escape-backslash-quotes", &emit::tpl!("\\ \" \' {a}\\"), &[t("\\ \" \' "), h("a"), t("\\")], &[e("a", s("v"))], "\\ \" ' v\\");
+    site_tpl(r, "tpl-escape-hex-nul", &emit::tpl!("\x41\0{a}\x7f\r"), &[t("A\0"), h("a"), t("\x7f\r")], &[e("a", Val::I(2))], "A\x002\x7f\r");
+    site_tpl(r, "tpl-escape-next-to-braces", &emit::tpl!("{{\n}}{a}\\{{"), &[t("{\n}"), h("a"), t("\\{")], &[e("a", Val::I(3))], "{\n}3\\{");
+    site_tpl(r, "tpl-escape-line-continuation", &emit::tpl!("a\
+          b{a}"), &[t("ab"), h("a")], &[e("a", Val::I(4))], "ab4");
+    site_tpl(r, "tpl-escape-text-only", &emit::tpl!("only\ttext\n"), &[t("only\ttext\n")], &none, "only\ttext\n");
+
     // ---- evt! ----
+    {
+        let evt = emit::evt!("x\ty\n{v}\\", v: 1);
+        site_tpl(r, "evt-escape-mixed", evt.tpl(), &[t("x\ty\n"), h("v"), t("\\")], &[e("v", Val::I(1))], "x\ty\n1\\");
+        site_text(r, "evt-escape-mixed-msg", &evt.msg().to_string(), "x\ty\n1\\");
+    }
     {
         let evt = emit::evt!("a {x} b {y: 2} c", x: 1);
         site_tpl(r, "evt-inline-value", evt.tpl(), &[t("a "), h("x"), t(" b "), h("y"), t(" c")], &[e("x", Val::I(1)), e("y", Val::I(2))], "a 1 b 2 c");
@@ -1524,6 +1538,7 @@ fn macro_sites(r: &mut Report) {
     }
 
     // ---- format! and #[emit::fmt] flags against std::format! ----
+    site_text(r, "format-escape-mixed", &emit::format!("x\ty\n{v}\\ \x41\"", v: 1), &std::format!("x\ty\n{}\\ \x41\"", 1));
     site_text(r, "format-basic", &emit::format!("Hello, {user}", user: "Rust"), &std::format!("Hello, {}", "Rust"));
     site_text(r, "format-escaped", &emit::format!("{{{a}}} }}{{", a: 1), &std::format!("{{{}}} }}{{", 1));
     site_text(r, "format-non-ascii", &emit::format!("é{a}日{b}😀", a: "日", b: 2), &std::format!("é{}日{}😀", "日", 2));
